@@ -236,14 +236,17 @@ CHECKS["C07"] = dict(
          "Trusted additionally: the translator; ASE's JSON codec.")
 
 CHECKS["C01"] = dict(
-    technique="Coq proof over the reals of detailed balance for the model kernels (Proofs/BalanceProofs.v, Props/C01.v, reusing Model/Criteria.v) "
+    technique="Coq proof over the reals of detailed balance, finite-state Markov-chain invariance and the analytic averages (Proofs/BalanceProofs.v, MarkovProofs.v, LangevinProofs.v, AveragesProofs.v, PoissonProofs.v, Props/C01.v, reusing Model/Criteria.v) "
               "+ statistical exploration of long real runs on analytically solvable systems (two-stage decision rule)",
     text="PARTIAL. Proved for all parameters: Metropolis detailed balance for any positive weights; 'accept iff u < A' accepts with "
          "probability min(1,A); the exponents the criteria evaluate are ratios of the target weights (canonical; isobaric with "
-         "V^(N+1) in scaled coordinates; grand-canonical insertion and deletion with V/Lambda^3 and N!); the Poisson weights are "
-         "stationary for the ideal-gas particle-number chain. Cited, not formalised: the ergodic theorem and the analytic averages. "
-         "The real code is sampled: harmonic wells, dipole in a field, ideal gas at constant P and at constant mu (mean, variance, "
-         "histogram, uniform positions and orientations).",
+         "V^(N+1) in scaled coordinates; grand-canonical insertion and deletion with V/Lambda^3 and N!); finite-state chains: a reversible "
+         "stochastic kernel is stationary, the Metropolis-Hastings kernel of ANY proposal is reversible, weighted mixtures and sequences of "
+         "invariant kernels are invariant, a chain started in the target stays in it through any history; the analytic averages themselves: "
+         "Langevin mean coth x - 1/x, ideal-gas volume and equipartition identities for every cut-off (explicit boundary term), Poisson "
+         "normalisation / mean / variance as infinite series. Cited, not formalised: the ergodic theorem and the two L -> infinity limits. "
+         "The real code is sampled: harmonic wells (ball / box / Hamiltonian incl. a coarse chain with ~25 % rejections), dipole in a field, ideal gas at "
+         "constant P and at constant mu (mean, variance, histogram, uniform positions and orientations), and runs re-heated on the fly.",
     ref="§4 C01",
     note=COMMON_NOTE + " The statement is a limit over infinite histories: the implementation can only be sampled; a violation needs a "
          "first-stage nomination (|z| > 4.5) AND |z| > 6.5 on an independent run with 4x the steps.")
